@@ -678,9 +678,9 @@ impl Check for C09 {
     fn budget(&self, tier: Tier) -> u64 {
         match tier {
             // all sequences of length <= 3 (x send style x child class x failure plan), then random
-            Tier::Quick => Self::quick_exh() + 120_000,
-            // all of length <= 4 under 2 schedule seeds, then random
-            Tier::Thorough => 2 * exhaustive_count(4) + 10_000_000,
+            Tier::Quick => Self::quick_exh() + 600_000,
+            // all of length <= 4 under 4 schedule seeds, then random
+            Tier::Thorough => 4 * exhaustive_count(4) + 60_000_000,
         }
     }
     fn generate(&self, rng: &mut Rng, idx: u64, tier: Tier) -> Option<E1Scn> {
@@ -694,7 +694,7 @@ impl Check for C09 {
             }
             Tier::Thorough => {
                 let n = exhaustive_count(4);
-                if idx < 2 * n {
+                if idx < 4 * n {
                     exhaustive_scn(idx % n, 4)
                 } else {
                     Some(gen_model_random(rng))
@@ -768,7 +768,7 @@ impl Check for C09 {
         !matches!(run_model(scn), ModelResult::Ambiguous(_)) && out.hist.iter().any(|r| matches!(r.ev, Ev::Spawn { .. }))
     }
     fn rule(&self) -> String {
-        "quick: every control sequence of length <= 3 over an 18-letter alphabet x {burst, settled} x 6 child behaviour classes x 3 spawn-failure plans, then seeded-random sequences of length 2-30 (thorough: length <= 4 under two schedule seeds, then random); each run under a seeded scheduling policy. distinct = distinct hash of the recorded history; non-trivial = the scenario is tie-free (so it was compared observation by observation with the reference model) and spawned at least one child".into()
+        "quick: every control sequence of length <= 3 over an 18-letter alphabet x {burst, settled} x 6 child behaviour classes x 3 spawn-failure plans, then seeded-random sequences of length 2-30 (thorough: length <= 4 under four schedule seeds, then random); each run under a seeded scheduling policy. distinct = distinct hash of the recorded history; non-trivial = the scenario is tie-free (so it was compared observation by observation with the reference model) and spawned at least one child".into()
     }
     fn required_probes(&self, _tier: Tier) -> Vec<&'static str> {
         vec!["probe:compared-with-model", "fault:spawn-failure", "probe:spawn-hook-called", "probe:kill", "probe:job-task-ended"]
